@@ -337,6 +337,8 @@ package pubsub
 //@        (forall t string, q string :: t != topic ==> nGraft[t][q] == old(nGraft[t][q])) &&
 //@        (forall q string :: $visited[q] ==> q in gmap) && sepMesh(gs) && sepBackoff(gs) && backoffSame(gs) &&
 //@        (forall q string :: q in gmap && !$visited[q] ==> eligibleKept(gs, topic, q))
+//@   loop 3 step graft-traced-for-each-member: calls((*pubsubTracer).Graft) == iter(calls((*pubsubTracer).Graft)) + 1 &&
+//@        lastarg((*pubsubTracer).Graft, 1) == p && lastarg((*pubsubTracer).Graft, 2) == topic
 //@   at call Graft assert member-eligible: $arg1 == p && $arg2 == topic && eligibleKept(gs, topic, p) && p in gs.mesh[topic]
 //@   at call sendGraft assert member: $arg1 == p && $arg2 == topic && !has(gs.backoff, topic, p) && !(p in gs.direct)
 //@   ensures rejoin-noop: old(topic in gs.mesh) ==> calls((*pubsubTracer).Join) == old(calls((*pubsubTracer).Join)) &&
@@ -382,6 +384,8 @@ package pubsub
 //@   at call sendPrune assert unsubscribe-prune: $arg1 == p && $arg2 == topic && $arg3
 //@   at call addBackoff assert unsubscribe-backoff: $arg1 == p && $arg2 == topic && $arg3
 //@   at call Prune assert traced-member: $arg1 == p && $arg2 == topic
+//@   loop 1 step prune-traced-for-each-member: calls((*pubsubTracer).Prune) == iter(calls((*pubsubTracer).Prune)) + 1 &&
+//@        lastarg((*pubsubTracer).Prune, 1) == p && lastarg((*pubsubTracer).Prune, 2) == topic
 //@   ensures not-joined-noop: !old(topic in gs.mesh) ==> calls((*pubsubTracer).Leave) == old(calls((*pubsubTracer).Leave)) &&
 //@        calls((*GossipSubRouter).sendPrune) == old(calls((*GossipSubRouter).sendPrune))
 //@   ensures left: !(topic in gs.mesh)
@@ -815,9 +819,14 @@ package pubsub
 // queued only if its own size does not exceed the limit - a larger fragment is dropped and
 // reported (DROP_RPC) instead of being written to the wire.
 //@ func (*GossipSubRouter).sendRPC
-//@   property C11
+//@   property C11 C06
 //@   requires wf: wfGS(gs) && out != nil
 //@   noframe
+//@   ensures shared-rpc-not-written: out.Publish == old(out.Publish) && (old(out.Control) == nil ==> out.Control == nil)
+//@   ensures pending-gossip-consumed: !(p in gs.gossip)
+//@   ensures sent-once-below-limit: old(p in gs.p.peers) && firstret((*pb.RPC).Size) < gs.p.maxMessageSize ==>
+//@        calls((*GossipSubRouter).doSendRPC) == old(calls((*GossipSubRouter).doSendRPC)) + 1 && lastarg((*GossipSubRouter).doSendRPC, 4) == urgent
+//@   ensures nothing-without-a-queue: !old(p in gs.p.peers) ==> calls((*GossipSubRouter).doSendRPC) == old(calls((*GossipSubRouter).doSendRPC))
 //@   at call doSendRPC assert below-limit: lastret((*pb.RPC).Size) < gs.p.maxMessageSize && lastarg((*pb.RPC).Size, 0) == $arg1.RPC && $arg2 == p && $arg3 == gs.p.peers[p]
 //@ func (*GossipSubRouter).sendRPC$1
 //@   property C11
@@ -878,6 +887,8 @@ package pubsub
 //@   loop 2 invariant only-current-grafts: forall i int :: 0 <= i && i < len(tograft) ==> has(gs.mesh, graftTopic(tograft[i]), p)
 //@   loop 2 invariant only-current-prunes: forall i int :: 0 <= i && i < len(toprune) ==> !has(gs.mesh, pruneTopic(toprune[i]), p)
 //@   ensures control-kept: old(out.Control) != nil ==> out.Control == old(out.Control)
+//@   ensures other-rpcs-untouched: forall r *RPC :: old(allocated(r)) && r != out ==> r.Control == old(r.Control) && r.Publish == old(r.Publish)
+//@   ensures this-rpc-payload-kept: out.Publish == old(out.Publish) && out.Subscriptions == old(out.Subscriptions)
 //@   ensures grafts-current: out.Control != nil ==> (forall i int :: ite(old(out.Control) == nil, 0, old(len(out.Control.Graft))) <= i && i < len(out.Control.Graft) ==>
 //@        has(gs.mesh, graftTopic(out.Control.Graft[i]), p))
 //@   ensures prunes-current: out.Control != nil ==> (forall i int :: ite(old(out.Control) == nil, 0, old(len(out.Control.Prune))) <= i && i < len(out.Control.Prune) ==>
@@ -885,6 +896,18 @@ package pubsub
 //@   ensures existing-kept: old(out.Control) != nil ==> len(out.Control.Graft) >= old(len(out.Control.Graft)) && len(out.Control.Prune) >= old(len(out.Control.Prune)) &&
 //@        (forall i int :: 0 <= i && i < old(len(out.Control.Graft)) ==> out.Control.Graft[i] == old(out.Control.Graft[i])) &&
 //@        (forall i int :: 0 <= i && i < old(len(out.Control.Prune)) ==> out.Control.Prune[i] == old(out.Control.Prune[i]))
+
+// piggybackGossip attaches the pending IHAVEs to this RPC's control message (creating one if
+// needed) and writes to no other RPC.
+//@ func (*GossipSubRouter).piggybackGossip
+//@   property C06 C17 C12
+//@   safe
+//@   requires args: out != nil
+//@   noframe
+//@   ensures gossip-attached: out.Control != nil && out.Control.Ihave == ihave
+//@   ensures control-kept: old(out.Control) != nil ==> out.Control == old(out.Control)
+//@   ensures other-rpcs-untouched: forall r *RPC :: old(allocated(r)) && r != out ==> r.Control == old(r.Control) && r.Publish == old(r.Publish)
+//@   ensures this-rpc-payload-kept: out.Publish == old(out.Publish) && out.Subscriptions == old(out.Subscriptions)
 
 // pushControl: only GRAFT/PRUNE are kept for a retry (gossip is never retried), for that peer only.
 //@ func (*GossipSubRouter).pushControl
